@@ -30,18 +30,33 @@ fn fit(f: &str, x: &[f64], y: &[f64], w: Option<&[f64]>, o: Option<&[f64]>, alph
 /// `refit`: the object has already been fitted (successfully, on the responses in reverse order with a loose
 /// tolerance and another penalty) before it is configured for and fitted to the problem at hand
 fn fit_h(f: &str, x: &[f64], y: &[f64], w: Option<&[f64]>, o: Option<&[f64]>, alpha: f64, tol: f64, maxit: usize, refit: bool) -> Option<Result<Fitted, String>> {
+    fit_hh(f, x, y, w, o, alpha, tol, maxit, if refit { 1 } else { 0 })
+}
+/// history 0: fresh object; 1: after a successful fit of other responses under another configuration;
+/// 2: the final configuration is set, a fit with a budget of one iteration fails (Err), then the fit is retried
+fn fit_hh(f: &str, x: &[f64], y: &[f64], w: Option<&[f64]>, o: Option<&[f64]>, alpha: f64, tol: f64, maxit: usize, history: u8) -> Option<Result<Fitted, String>> {
     guard(|| {
         let mut g = GLM::new(fam_of(f));
-        if refit {
+        if history == 1 {
             let yr: Vec<f64> = y.iter().rev().cloned().collect();
             g.set_penalty(0.5); g.set_tolerance(1e-3);
             let _ = g.fit(x, &yr, 100);
             g.set_penalty(0.0);
         }
-        if alpha > 0.0 { g.set_penalty(alpha); }
-        if let Some(w) = w { g.set_weights(w); }
-        if let Some(o) = o { g.set_offset(o); }
-        g.set_tolerance(tol);
+        if history == 2 {
+            if alpha > 0.0 { g.set_penalty(alpha); }
+            if let Some(w) = w { g.set_weights(w); }
+            if let Some(o) = o { g.set_offset(o); }
+            g.set_tolerance(tol);
+            let _ = g.fit(x, y, 1);
+        }
+        // after history 2 the object is already configured: the retry must use that configuration as it stands
+        if history != 2 {
+            if alpha > 0.0 { g.set_penalty(alpha); }
+            if let Some(w) = w { g.set_weights(w); }
+            if let Some(o) = o { g.set_offset(o); }
+            g.set_tolerance(tol);
+        }
         let r = g.fit(x, y, maxit).map_err(|e| e.to_string());
         match r {
             Err(e) => Err(e),
@@ -144,7 +159,8 @@ pub fn record(seed: u64, nev: usize, out: &str) {
         // large responses (mean of order 50..150): the log-link iteration starts far from the solution
         let large = (e / 18) % 3 == 2;
         if large { beta[0] = match fam { "Gaussian" => 80.0, "Bernoulli" => beta[0], _ => 4.0 + rng.below(8) as f64 / 10.0 }; for j in 1..p { beta[j] *= 0.25; } }
-        let refit = (e / 6) % 2 == 1;
+        let history: u8 = ((e / 6) % 3) as u8;
+        let refit = history != 0;
         let use_w = rng.below(2) == 0; let use_o = rng.below(3) == 0;
         let alpha = [0.0, 0.0, 0.1, 1.0, 10.0][rng.below(5) as usize];
         let w: Vec<f64> = (0..n).map(|_| if use_w { 0.5 + rng.below(4) as f64 * 0.5 } else { 1.0 }).collect();
@@ -157,8 +173,8 @@ pub fn record(seed: u64, nev: usize, out: &str) {
             _ => { let m = h.exp(); let shape = if fam == "Gamma" { 3.0 } else { 1.0 }; (0..shape as usize).map(|_| -unif(&mut rng).ln()).sum::<f64>() * m / shape }
         }).collect();
         let tol = [1e-8, 1e-11, 1e-14][rng.below(3) as usize];
-        let r = fit_h(fam, &x, &y, if use_w { Some(&w[..]) } else { None }, if use_o { Some(&o[..]) } else { None }, alpha, tol, 200, refit);
-        let base = json!({"family": fam, "design": kind, "scale": if large { "large-mean" } else { "unit" }, "history": if refit { "refit" } else { "fresh" }, "n": n, "p": p, "weights": use_w, "offset": use_o, "alpha_class": if alpha == 0.0 { 0 } else { 1 }, "tol_log10": tol.log10().round() as i64});
+        let r = fit_hh(fam, &x, &y, if use_w { Some(&w[..]) } else { None }, if use_o { Some(&o[..]) } else { None }, alpha, tol, 200, history);
+        let base = json!({"family": fam, "design": kind, "scale": if large { "large-mean" } else { "unit" }, "history": if history == 1 { "refit" } else if history == 2 { "retry-after-failed-fit" } else { "fresh" }, "n": n, "p": p, "weights": use_w, "offset": use_o, "alpha_class": if alpha == 0.0 { 0 } else { 1 }, "tol_log10": tol.log10().round() as i64});
         let mut ev = base.as_object().unwrap().clone();
         match r {
             Some(Ok(ft)) => {
